@@ -1,24 +1,111 @@
-//! U4 bounded twin: the reachability trace and the orphan test on the compiled code (with the table
-//! stand-in), on small concrete graph structures with symbolic multiplicities.  The unbounded proof of
-//! the same contract is the Verus pipeline; this twin exists for changes that the extraction rules
-//! cannot carry and for counterexamples.
-#![allow(dead_code, unused_imports)]
+//! U4 on the compiled code.  The unbounded proof of the trace and of the orphan test is the Verus
+//! pipeline; these harnesses are the modular twin for changes that the extraction rules cannot carry:
+//! `orphaned_cycle` is run on the real code with `cycle_refs` replaced by its (Verus-proved) contract for
+//! a fixed two-object structure with symbolic counts.
+#![allow(dead_code, unused_imports, static_mut_refs)]
 use super::*;
+use crate::rc::RcBox;
 use crate::verif::util::*;
+use core::ptr::NonNull;
 
-/// two objects, a -> b recorded `k` times; b holds nothing.  Trace from a.
+static mut STUB_N: usize = 0;
+static mut STUB_PTR: [*mut (); 2] = [core::ptr::null_mut(); 2];
+static mut STUB_CNT: [usize; 2] = [0; 2];
+static mut STUB_CALLS: usize = 0;
+
+/// contract stub of `cycle_refs` for the harness's structure: returns the map registered by the harness
+fn stub_cycle_refs<T>(_this: Link<T>) -> HashMap<Link<T>, usize> {
+    let mut m: HashMap<Link<T>, usize> = HashMap::default();
+    unsafe {
+        STUB_CALLS += 1;
+        if STUB_N >= 1 {
+            m.insert(Link::forward(NonNull::new_unchecked(STUB_PTR[0] as *mut RcBox<T>)), STUB_CNT[0]);
+        }
+        if STUB_N >= 2 {
+            m.insert(Link::forward(NonNull::new_unchecked(STUB_PTR[1] as *mut RcBox<T>)), STUB_CNT[1]);
+        }
+    }
+    m
+}
+
+/// `orphaned_cycle`: Some(trace map) iff the map is non-empty and no traced object has strong > count;
+/// reads only; traces exactly once.
 #[kani::proof]
 #[kani::unwind(7)]
-fn u4_trace_chain2() {
-    let a = Rc::new(0u8);
-    let b = Rc::new(1u8);
-    let k: usize = kani::any();
-    kani::assume(k >= 1);
+#[kani::stub(crate::cycle::cycle_refs, stub_cycle_refs)]
+fn u4_orphan_test_exact() {
+    let a = Rc::new(1u8);
+    let b = Rc::new(2u8);
+    let (sa, wa, sb, wb): (usize, usize, usize, usize) = (kani::any(), kani::any(), kani::any(), kani::any());
+    let (ca, cb, n): (usize, usize, usize) = (kani::any(), kani::any(), kani::any());
+    kani::assume(n <= 2);
+    set_counts(&a, sa, wa);
+    set_counts(&b, sb, wb);
+    // a holds b (recorded k times), b holds a (recorded j times): the tables exist as they would in the
+    // traced structure, so that code that reads them (instead of only the trace result) is exercised too
+    let (k, j): (usize, usize) = (kani::any(), kani::any());
     install(&a, fwd(&b), k);
     install(&b, bwd(&a), k);
+    install(&b, fwd(&a), j);
+    install(&a, bwd(&b), j);
+    unsafe {
+        STUB_N = n;
+        STUB_PTR = [a.ptr.as_ptr() as *mut (), b.ptr.as_ptr() as *mut ()];
+        STUB_CNT = [ca, cb];
+    }
+    let r = Rc::orphaned_cycle(&a);
+    let want = n >= 1 && sa <= ca && (n < 2 || sb <= cb);
+    kani::assert(r.is_some() == want, "U4.orphan_test.some_iff_nonempty_and_no_traced_object_has_strong_above_count");
+    if let Some(m) = &r {
+        kani::assert(m.len() == n, "U4.orphan_test.returns_the_trace_map_keys");
+        kani::assert(m.get(&fwd(&a)) == Some(&ca) && (n < 2 || m.get(&fwd(&b)) == Some(&cb)), "U4.orphan_test.returns_the_trace_map_counts");
+    }
+    kani::assert(unsafe { STUB_CALLS } == 1, "U4.orphan_test.traces_exactly_once");
+    kani::assert(a.inner().strong() == sa && a.inner().weak() == wa && b.inner().strong() == sb && b.inner().weak() == wb, "U4.orphan_test.reads_only");
+    kani::assert(cnt(&a, fwd(&b)) == k && cnt(&b, fwd(&a)) == j && borrow_free(&a) && borrow_free(&b), "U4.orphan_test.tables_untouched_no_borrow_left");
+    core::mem::forget(r);
+    core::mem::forget((a, b));
+}
+
+/// The trace itself on the compiled code: two-object ring with symbolic multiplicities, traced from a.
+#[kani::proof]
+#[kani::unwind(7)]
+fn u4_trace_ring2() {
+    let a = Rc::new(1u8);
+    let b = Rc::new(2u8);
+    let (k, j): (usize, usize) = (kani::any(), kani::any());
+    kani::assume(k >= 1 && j >= 1);
+    install(&a, fwd(&b), k);
+    install(&b, bwd(&a), k);
+    install(&b, fwd(&a), j);
+    install(&a, bwd(&b), j);
     let m = cycle_refs(fwd(&a));
-    kani::assert(m.len() == 1, "U4.trace.chain2.exactly_one_key");
-    kani::assert(m.get(&fwd(&b)) == Some(&k), "U4.trace.chain2.count_is_multiplicity");
+    kani::assert(m.len() == 2, "U4.trace.ring2.keys_are_exactly_the_two_members");
+    kani::assert(m.get(&fwd(&b)) == Some(&k) && m.get(&fwd(&a)) == Some(&j), "U4.trace.ring2.counts_are_the_recorded_multiplicities");
+    kani::assert(borrow_free(&a) && borrow_free(&b), "U4.trace.no_borrow_left");
     core::mem::forget(m);
     core::mem::forget((a, b));
+}
+
+/// an outside owner c of a ring member appears with count 0 (so the orphan test can see it); a loopback
+/// record on a has no influence
+#[kani::proof]
+#[kani::unwind(7)]
+fn u4_trace_outside_owner() {
+    let a = Rc::new(1u8);
+    let c = Rc::new(3u8);
+    let (k, l): (usize, usize) = (kani::any(), kani::any());
+    kani::assume(k >= 1);
+    // a holds itself k times (through clones), c holds a once, a has l same-handle self-adoptions
+    install(&a, fwd(&a), k);
+    install(&a, bwd(&a), k);
+    install(&a, lpb(&a), l);
+    install(&c, fwd(&a), 1);
+    install(&a, bwd(&c), 1);
+    let m = cycle_refs(fwd(&a));
+    kani::assert(m.len() == 2, "U4.trace.outside_owner.keys_are_member_and_adopter");
+    kani::assert(m.get(&fwd(&a)) == Some(&k), "U4.trace.outside_owner.member_count_ignores_loopback_and_untraced_owner");
+    kani::assert(m.get(&fwd(&c)) == Some(&0), "U4.trace.outside_owner.untraced_adopter_has_count_zero");
+    core::mem::forget(m);
+    core::mem::forget((a, c));
 }
